@@ -78,7 +78,8 @@ type Model struct {
 	Rebuilding bool
 	Checkpoint string
 	Dirty      bool
-	Deleted    bool // Server.Delete was called: terminal (only a pending Release remains)
+	Deleted    bool   // Server.Delete was called: terminal (only a pending Release remains)
+	CloneOf    string // E-C: this is a clone replica whose snapshot files were copied and which has not been rewired yet: name of the snapshot it is a clone of
 }
 
 func NewModel(sectors int) *Model {
